@@ -1102,11 +1102,12 @@ class SpectrumResult:
 
         # Normalize ragged D to list[np.ndarray[int64]]
         if "D" in self._data and self._data["D"].dtype == object:
-            D_list = []
-            for d in self._data["D"]:
-                arr = np.asarray(d, dtype=np.int64)
-                D_list.append(arr)
-            self._data["D"] = np.array(D_list, dtype=object)
+            # Always one start vector per bin (1D object array), also when all
+            # bins share the same number of segments or there is a single bin
+            D_obj = np.empty(len(self._data["D"]), dtype=object)
+            for k, d in enumerate(self._data["D"]):
+                D_obj[k] = np.asarray(d, dtype=np.int64)
+            self._data["D"] = D_obj
 
         # Convenience: number of frequency bins
         self.nf = int(self._data.get("f", np.array([])).shape[0])
